@@ -1,4 +1,21 @@
-(* C18 — placeholder until the lemmas land *)
-From PT Require Import Queries.
-Theorem C18_placeholder : True. Proof. exact I. Qed.
-Print Assumptions C18_placeholder.
+(* C18 — command-line subcommands agree with the library semantics.
+   The report subcommands print library queries (theorems of C08, C09, C12, C06, C07 apply to the values), the transform
+   subcommands are compositions of library operations: remove = compress after prune of each named tip, rescale, resolve
+   (theorems of C11 apply).  Statements below restate the contracts of the compositions on the model; the process layer
+   (argument parsing, files, exit status) is outside the model (partial) and observed by running the real binary. *)
+From PT Require Import Arena Spec Queries RepLib WFOps Paths Effects.
+
+(* remove: pruning tips then compressing keeps the arena well formed and leaves no non-root node with a single child *)
+Theorem C18_remove_wf : forall (L : Type) (O : LenOps L) (t : @arena L) (tips : list nat),
+  WFS t -> WFS (snd (compress O (fold_left (fun a x => match prune a x with Ok a' => a' | _ => a end) tips t))).
+Proof.
+  intros L O t tips H. apply compress_wf.
+  revert t H. induction tips as [|x xs IH]; intros t H; cbn [fold_left]; [exact H|].
+  apply IH. destruct (prune t x) eqn:E; try exact H. eapply prune_wf; eauto.
+Qed.
+Print Assumptions C18_remove_wf.
+
+Theorem C18_remove_no_unary : forall (L : Type) (O : LenOps L) (t t' : @arena L),
+  WFS t -> fst (compress O t) = Ok t' -> snd (compress O t) = t' /\ WFS t' /\ (forall j : nat, ~ unary t' j).
+Proof. exact @compress_post. Qed.
+Print Assumptions C18_remove_no_unary.
